@@ -93,7 +93,7 @@ TypeInput(x) ==
   /\ Len(x.fitplan) = NT(x) /\ \A i \in 1..NT(x) : x.fitplan[i] \in Plans
   /\ Len(x.qtab) >= 1 /\ (x.shape = "V" => Len(x.qtab) = 1)
   /\ Len(x.bmplan) = Len(x.qtab) /\ \A j \in 1..Len(x.qtab) : x.bmplan[j] \in Plans
-  /\ x.nvd >= 1
+  /\ x.nvd >= 1 /\ x.wf \in BOOLEAN /\ x.elcurve \in BOOLEAN
   /\ \A k \in 1..NT(x) : IsRat(x.ptab[k].V0) /\ IsRat(x.ptab[k].E0) /\ IsRat(x.ptab[k].B0)
   (* heat capacities are either well above the 1e-10 cutoff of the Gruneisen routine or <= 0 *)
   /\ \A k \in 1..NT(x) : LET c == CvAt(x, k, x.ptab[k].V0)
